@@ -28,7 +28,7 @@ def isUnknown : Expect → Bool
 
 open Lean Elab Tactic Meta in
 /-- closes a goal `a = b` with `Eq.refl a`, leaving the definitional-equality check to the kernel alone (no
-axiom, nothing trusted: the kernel rejects the declaration if the two sides are not definitionally equal) -/
+extra assumption, nothing trusted: the kernel rejects the declaration if the two sides are not definitionally equal) -/
 elab "kernel_rfl" : tactic => do
   let g ← getMainGoal
   let t ← instantiateMVars (← g.getType)
